@@ -1492,6 +1492,65 @@ pub fn run(ctx: &Ctx) -> i32 {
         Json::Arr(env.forms.iter().filter(|f| env.is_not_validated(**f)).map(|f| f.name().into()).collect()),
     );
 
+    // the request for validation holds whatever the order of the builder calls that surround it: every permutation of
+    // {validate_layout_consistency(true), support_buffer_address(v), no_pipeline_mode()} x v x target x canary struct
+    {
+        let canaries = [("{float3,float}", "struct S { float3 a; float b; };\n", false), ("{float2,float}", "struct S { float2 a; float b; };\n", false), ("{float4}", "struct S { float4 a; };\n", true)];
+        let orders: [[u8; 3]; 6] = [[0, 1, 2], [0, 2, 1], [1, 0, 2], [1, 2, 0], [2, 0, 1], [2, 1, 0]];
+        let r = run_par(ctx, (canaries.len() * orders.len() * 2 * 3) as u64, 1, |idx, acc| {
+            let mut d = Vec::new();
+            crate::util::decode(idx, &[3, 2, orders.len() as u64, canaries.len() as u64], &mut d);
+            let tname = ["HlslForDirectX", "HlslForVulkan", "Msl"][d[0] as usize];
+            let target = match d[0] {
+                0 => rssl::Target::HlslForDirectX,
+                1 => rssl::Target::HlslForVulkan,
+                _ => rssl::Target::Msl,
+            };
+            let ba = d[1] == 1;
+            let order = orders[d[2] as usize];
+            let (cname, decl, consistent) = canaries[d[3] as usize];
+            let src = format!("{}StructuredBuffer<S> g_b;\nfloat f() {{ S s = g_b[0]; return s.a.x; }}\n", decl);
+            acc.evals += 1;
+            let r = guard(|| {
+                let mut inc = crate::util::MapIncludes(&[("main.rssl", src.as_str())]);
+                let mut args = rssl::CompileArgs::new("main.rssl", &mut inc, target);
+                for step in order {
+                    args = match step {
+                        0 => args.validate_layout_consistency(true),
+                        1 => args.support_buffer_address(ba),
+                        _ => args.no_pipeline_mode(),
+                    };
+                }
+                rssl::compile(args).map(|_| ()).map_err(|e| format!("{}", e))
+            });
+            let names = ["validate_layout_consistency(true)", "support_buffer_address", "no_pipeline_mode"];
+            let shown: Vec<&str> = order.iter().map(|s| names[*s as usize]).collect();
+            match r {
+                Err(p) => acc.violation(Violation { signature: p.signature(), detail: format!("compile with builder order {:?} panicked: {}", shown, p.message), replay: String::new() }),
+                Ok(v) => {
+                    // a rejection that is not a layout diagnostic (a back end's own error) says nothing about validation
+                    if let Err(msg) = &v {
+                        if parse_layout_message(msg).is_none() {
+                            acc.count(&format!("builder_order_cases_rejected_for_another_reason({})", one_line(msg, 40)));
+                            return;
+                        }
+                    }
+                    let accepted = v.is_ok();
+                    if accepted != consistent {
+                        acc.violation(Violation {
+                            signature: format!("layout|{}|builder-call-order", if accepted { "accepted" } else { "rejected" }),
+                            detail: format!("{} as StructuredBuffer<S> on {} (support_buffer_address({})): with the builder calls in the order {:?} compile {} although the layouts are {}", cname, tname, ba, shown, if accepted { "accepts" } else { "rejects" }, if consistent { "consistent" } else { "inconsistent" }),
+                            replay: format!("kind: builder-order\n{}\n", idx),
+                        });
+                    } else {
+                        acc.outcome(&("builder-order", accepted, cname));
+                    }
+                }
+            }
+        });
+        rep.absorb("builder_call_orders", r);
+    }
+
     // informational only: uses of a structured buffer that are outside the enumerated space (the property text
     // covers them, the task restricted the space to the forms the checker looks at). No verdict depends on this.
     let canary = "struct S { float3 a; float b; };\n";
